@@ -130,7 +130,14 @@ pub async fn run(cfg: RunCfg) -> RunResult {
                         (0 | 1, _) | (_, None) => {
                             let exp = latest.as_ref().map(|(_, (_, o))| o.clone());
                             let r = advance_mem_wal_generation(&mut ds, &region, &format!("mt-{}", uniq), &format!("wal-{}", uniq), exp.as_deref(), &format!("own-{}", uniq)).await;
-                            ("advance".into(), vec![latest.as_ref().map(|(g, _)| *g).unwrap_or(0), latest.as_ref().map(|(g, _)| *g + 1).unwrap_or(0)], r)
+                            // advance adds generation g+1 and seals generation g only if g is still open
+                            let mut touched = vec![latest.as_ref().map(|(g, _)| *g + 1).unwrap_or(0)];
+                            if let Some((g, (st, _))) = &latest {
+                                if *st == 0 {
+                                    touched.push(*g);
+                                }
+                            }
+                            ("advance".into(), touched, r)
                         }
                         (2 | 3, Some((g, (_, o)))) => {
                             let r = append_mem_wal_entry(&mut ds, &region, *g, prng.below(100) + (k as u64) * 100, o).await.map(|_| ());
@@ -292,7 +299,8 @@ pub async fn run(cfg: RunCfg) -> RunResult {
             }
             let (va, vb) = (*a.result.as_ref().unwrap(), *b.result.as_ref().unwrap());
             let concurrent = a.start_version < vb && b.start_version < va;
-            let same_gen = a.gens.iter().any(|g| b.gens.contains(g));
+            let ownership = |x: &OpRec| x.what == "owner" || x.what == "advance";
+            let same_gen = a.gens.iter().any(|g| b.gens.contains(g)) || (ownership(a) && ownership(b) && (a.what == "owner" || b.what == "owner"));
             if concurrent && same_gen {
                 res.violate("C39", "no-concurrent-same-generation", &format!("both-committed:{}+{}", a.what.clone().min(b.what.clone()), a.what.clone().max(b.what.clone())), 0, format!("a{} {} (started v{}, committed v{}) and a{} {} (started v{}, committed v{}) both changed region {} generations {:?}/{:?}", a.actor, a.what, a.start_version, va, b.actor, b.what, b.start_version, vb, a.region, a.gens, b.gens));
             }
